@@ -718,6 +718,23 @@ class Interp:
             else:
                 names = [norm(x) for x in cl.elts] if isinstance(cl, ast.Tuple) else [norm(cl)]
             return any(h.isinstance_(args[0], nme.split('.')[-1]) for nme in names)
+        if isinstance(fn, ast.Name) and fn.id == 'dict' and 'dict' not in env and not kwargs and len(args) <= 1:
+            # dict() / dict(iterable of pairs) / dict(mapping)
+            d_ = h.new_dict()
+            if args:
+                src_ = args[0]
+                if isinstance(src_, Ref) and h.objs[src_.name]['__class__'] == 'dict':
+                    pairs = list(h.objs[src_.name]['entries'])
+                else:
+                    pairs = []
+                    for it_ in self.seq(src_):
+                        kv = self.seq(it_) if not isinstance(it_, tuple) else list(it_)
+                        if len(kv) != 2:
+                            raise Raised('ValueError', h.version, e.lineno)
+                        pairs.append((kv[0], kv[1]))
+                for k_, v_ in pairs:
+                    h.dict_set(d_, k_, v_)
+            return d_
         if isinstance(fn, ast.Name) and fn.id in ('bool',) and len(args) == 1:
             return self.truth(args[0])
         if isinstance(fn, ast.Name) and fn.id in ('set', 'frozenset') and len(args) <= 1 and fn.id not in env:
